@@ -70,6 +70,22 @@ CLAIMED = {
        "is cited (checked by Monte Carlo in the bounded tier), not mechanised; HeteroskedasticNoise and DirichletClassificationLikelihood "
        "are not under contract; batch ranks <= 1 enumerated.",
   technique="contract-based deductive verification: AST-extracted real functions (constructors included), symbolic execution with an elementwise tensor domain, z3 + sympy CAS"),
+ "C15": dict(
+  category="other",
+  text="Proof tier (counted): the real _ApproximateMarginalLogLikelihood.forward (with VariationalELBO / PredictiveLogLikelihood "
+       "_log_likelihood_term and the real named_priors / added_loss_terms traversals of the module tree) is executed symbolically for "
+       "symbolic minibatch size B, num_data N, beta, 0..3 registered priors (on the model and on a sub-module) and 0..2 added-loss terms, "
+       "and z3 discharges value = (1/B) sum_i l_i - (beta/N) KL + (1/N) sum log priors - sum added losses (and the exact four terms for "
+       "combine_terms=False), that the documented per-point term (expected_log_prob resp. log_marginal) is the one used with (y, q(f)), and "
+       "that each prior closure is evaluated on its owning module; NGD.step performs p <- p - lr*N*grad on exactly the parameters that have "
+       "a gradient. The callees are represented by their contracts (C12/C13: what l_i is; C14: KL). Bounded tier (not counted): N*ELBO <= "
+       "exact evidence for random q(u), one NGD step of size one reaches the collapsed (Titsias) bound and zero natural gradient there "
+       "(batch shapes () and (3,)), collapsed bound <= evidence, minibatch scaling.",
+  design_ref="DESIGN.md section 5, C15",
+  note="The inequality / optimum claims are theorems about values of compositions (Jensen, conjugacy) and are only checked numerically "
+       "(n=12, m=5, float64). Numbers of priors / added losses are enumerated (0..3 / 0..2); batch shape () in the proof tier. "
+       "TrilNaturalVariationalDistribution is not held to the one-step claim (non-linear re-parameterisation of the natural matrix).",
+  technique="contract-based deductive verification: AST-extracted real functions, modular callee contracts (stubs), z3"),
 }
 REASON_NOT_BUILT = "contracts for this property are not built yet in this revision (see DESIGN.md section 9 build order); not claimed until its obligations are discharged by the checker"
 
